@@ -19,6 +19,9 @@ FUNCTIONS = [
     ("saml2.response", "for_me"),
     ("saml2.validate", "validate_on_or_after"),
     ("saml2.validate", "validate_before"),
+    ("saml2.response", "AuthnResponse.condition_ok"),
+    ("saml2.response", "AuthnResponse.authn_statement_ok"),
+    ("saml2.response", "StatusResponse._verify"),
 ]
 
 LOGGERS = ("logger", "logging", "print")
@@ -51,13 +54,35 @@ def dotted(node):
     return None
 
 
-CMP = {ast.Eq: "eq", ast.NotEq: "ne", ast.Lt: "lt", ast.LtE: "le", ast.Gt: "gt", ast.GtE: "ge"}
+CMP = {ast.Eq: "eq", ast.NotEq: "ne", ast.Lt: "lt", ast.LtE: "le", ast.Gt: "gt", ast.GtE: "ge", ast.In: "isIn",
+       ast.NotIn: "notIn"}
 STR_METHODS = ("strip", "lower")
 
 
 class T:
-    def __init__(self, params):
+    def __init__(self, params, globs=None):
         self.locals = set(params)
+        self.globs = globs or {}
+
+    def const_of(self, d):
+        """A module-level constant (`samlp.STATUS_SUCCESS`, `XSI_TYPE`) is written with its CURRENT value."""
+        obj = self.globs
+        try:
+            parts = d.split(".")
+            obj = self.globs[parts[0]]
+            for part in parts[1:]:
+                obj = getattr(obj, part)
+        except (KeyError, AttributeError):
+            return None
+        if obj is None:
+            return ".none"
+        if isinstance(obj, bool):
+            return "(.bool %s)" % ("true" if obj else "false")
+        if isinstance(obj, int):
+            return "(.int (%d))" % obj
+        if isinstance(obj, str):
+            return "(.str %s)" % lstr(obj)
+        return None
 
     # ---- expressions
     def expr(self, e):
@@ -73,13 +98,24 @@ class T:
                 return "(.str %s)" % lstr(v)
             return '(.unsupported "Constant:%s")' % type(v).__name__
         if isinstance(e, ast.Name):
+            if e.id not in self.locals:
+                c = self.const_of(e.id)
+                if c is not None:
+                    return c
             return "(.name %s)" % lstr(e.id)
         if isinstance(e, ast.Attribute):
             d = dotted(e)
             root = d.split(".")[0] if d else None
             if root is not None and root not in self.locals:
+                c = self.const_of(d)
+                if c is not None:
+                    return c
                 return '(.unsupported "module attribute %s")' % d
             return "(.attr %s %s)" % (self.expr(e.value), lstr(e.attr))
+        if isinstance(e, ast.JoinedStr):
+            return ".opaqueStr"
+        if isinstance(e, ast.Subscript):
+            return "(.subscript %s %s)" % (self.expr(e.value), self.expr(e.slice))
         if isinstance(e, ast.UnaryOp) and isinstance(e.op, ast.Not):
             return "(.not %s)" % self.expr(e.operand)
         if isinstance(e, ast.BoolOp):
@@ -100,7 +136,7 @@ class T:
                 if root is None or root in self.locals:
                     if e.func.attr in STR_METHODS:
                         return "(.method %s %s %s)" % (self.expr(e.func.value), lstr(e.func.attr), args)
-                    return '(.unsupported "method %s")' % e.func.attr
+                    return "(.callm %s %s %s)" % (self.expr(e.func.value), lstr(e.func.attr), args)
             if d is not None:
                 return "(.call %s %s)" % (lstr(d), args)
         return '(.unsupported "%s")' % type(e).__name__
@@ -125,6 +161,21 @@ class T:
         if isinstance(s, ast.Assign) and len(s.targets) == 1 and isinstance(s.targets[0], ast.Name):
             self.locals.add(s.targets[0].id)
             return "(.assign %s %s)" % (lstr(s.targets[0].id), self.expr(s.value))
+        if (isinstance(s, ast.Assign) and len(s.targets) == 1 and isinstance(s.targets[0], ast.Attribute)
+                and isinstance(s.targets[0].value, ast.Name) and s.targets[0].value.id in self.locals):
+            return "(.setattr %s %s %s)" % (lstr(s.targets[0].value.id), lstr(s.targets[0].attr), self.expr(s.value))
+        if isinstance(s, ast.Try) and not s.orelse and not s.finalbody:
+            hs = []
+            for h in s.handlers:
+                d = dotted(h.type) if h.type is not None else "Exception"
+                if d is None:
+                    return '(.unsupported "handler type")'
+                if h.name:
+                    self.locals.add(h.name)
+                hs.append("(%s, %s)" % (lstr(d.split(".")[-1]), self.block(h.body, ind)))
+            return "(.try %s [%s])" % (self.block(s.body, ind), ", ".join(hs))
+        if isinstance(s, ast.Raise) and s.exc is None:
+            return ".reraise"
         if isinstance(s, ast.If):
             return "(.ifs %s %s %s)" % (self.expr(s.test), self.block(s.body, ind), self.block(s.orelse, ind))
         if isinstance(s, ast.For) and isinstance(s.target, ast.Name):
@@ -172,7 +223,7 @@ def gen():
             body = '[.unsupported "signature or depth"]'
             params = params or []
         else:
-            body = T(params).block(fn.body, 2)
+            body = T(params, getattr(inspect.getmodule(obj), "__dict__", {})).block(fn.body, 2)
         out.append("/-- `%s.%s` as written in %s -/" % (modname, qual, os.path.basename(inspect.getsourcefile(obj))))
         out.append("def %s : FunDef :=" % name)
         out.append("  { name := %s, params := [%s], body := %s }" % (lstr(qual), ", ".join(lstr(p) for p in params), body))
